@@ -210,6 +210,7 @@ model does not know (the regenerated order then names something new: everything 
 def leafCheck (o : Opts) (c : Cert) : String → Option (Option Reject)
   | "parse" => some none    -- not leaf filters: handled around them
   | "verify" => some none
+  | "noChains" => some none
   | "chainsEquivalent" => some none
   | "notAfterStart" => some <| if Gen.naStartFails c.notAfter o.notAfterStart then some .notAfterStart else none
   | "notAfterLimit" => some <| if Gen.naLimitFails c.notAfter o.notAfterLimit then some .notAfterLimit else none
